@@ -110,7 +110,7 @@ def model_shift(a: str, n: int, op: str):
     x, mask = int(a, 2), (1 << L) - 1
     if op == 'lshift':
         r1 = ''.join(a[i + n] if i + n < L else '0' for i in range(L))
-        r2 = format((x << n) & mask, f'0{L}b')
+        r2 = format((x << min(n, L)) & mask, f'0{L}b')      # shifting by L already clears everything (keeps the big-int oracle affordable)
     else:
         r1 = ''.join(a[i - n] if i - n >= 0 else '0' for i in range(L))
         r2 = format(x >> n, f'0{L}b')
@@ -130,6 +130,8 @@ def nclass(n: int, L: int) -> str:
         return 'count<len'
     if n == L:
         return 'count=len'
+    if n >= 2 ** 63:
+        return 'count>machine-word'
     return 'count>len'
 
 
@@ -478,7 +480,7 @@ def make_spec(rng, bits, kinds=None):
 
 
 def shift_pool(L):
-    return sorted({-1, 0, 1, 7, 8, 9, L - 1, L, L + 1, 10 ** 6})
+    return sorted({-1, 0, 1, 7, 8, 9, L - 1, L, L + 1, 10 ** 6, 2 ** 31, 2 ** 63 - 1, 2 ** 63, 2 ** 64, 10 ** 20})
 
 
 def related(rng, a):
@@ -516,7 +518,7 @@ def gen_prog(rng, a, operands):
                 spec = make_spec(rng, util.content(rng, L))
             prog.append([opk, spec])
         else:
-            n = rng.choice([0, 1, 1, 2, 3, 7, 8, 9, L - 1, L, L + 1, L // 2, -1, 10 ** 6, rng.randint(0, L + 2)])
+            n = rng.choice([0, 1, 1, 2, 3, 7, 8, 9, L - 1, L, L + 1, L // 2, -1, 10 ** 6, rng.randint(0, L + 2), rng.choice([2 ** 31, 2 ** 63, 2 ** 64 + 1, 10 ** 20])])
             prog.append([rng.choice(['lshift', 'rshift']), n])
     return prog
 
